@@ -2,6 +2,7 @@
    Property theorems only; helper lemmas live in HtpModel/Lemmas. -/
 import HtpModel.Lemmas.Ring
 import HtpModel.Lemmas.TableSim
+import HtpModel.Lemmas.Builder
 
 namespace Htp.C17
 open Htp.Ring
@@ -148,5 +149,85 @@ theorem C17_table_sim_fresh (cap : Nat) (hc : 0 < cap) (ops : List TOp) : runT (
 /-- non-vacuity: first match wins, case-insensitively, across growth of a capacity-1 ring -/
 example : runT (Table.create 1) [.add (b!"Host") 1, .add (b!"host") 2, .add (b!"X") 3, .get (b!"HOST"), .get (b!"x"), .get (b!"y"), .size]
     = [.ok true, .ok true, .ok true, .val (some 1), .val (some 3), .val none, .num 3] := by decide
+
+/-! ### the string builder (bstr_builder.c) as a list of pieces -/
+open Htp.Builder in
+section
+/-- operations of the builder and the abstract type: the list of pieces appended since the last clear -/
+inductive BOp where
+  | append (d : Bytes) | appendC (d : Bytes) | clear | size | toStr
+
+inductive BRes where
+  | unit | num (n : Nat) | str (s : Bytes)
+  deriving DecidableEq
+
+def stepB (b : Builder) : BOp → Builder × BRes
+  | .append d => (Builder.append b d, .unit)
+  | .appendC d => (Builder.appendC b d, .unit)
+  | .clear => (Builder.clear b, .unit)
+  | .size => (b, .num (Builder.size b))
+  | .toStr => (b, .str (Builder.toStr b))
+
+def stepBSpec (ps : List Bytes) : BOp → List Bytes × BRes
+  | .append d => (ps ++ [d], .unit)
+  | .appendC d => (ps ++ [d.takeWhile (· != 0)], .unit)
+  | .clear => ([], .unit)
+  | .size => (ps, .num ps.length)
+  | .toStr => (ps, .str ps.flatten)
+
+def runB (b : Builder) : List BOp → List BRes
+  | [] => []
+  | o :: os => (stepB b o).2 :: runB (stepB b o).1 os
+
+def runBSpec (ps : List Bytes) : List BOp → List BRes
+  | [] => []
+  | o :: os => (stepBSpec ps o).2 :: runBSpec (stepBSpec ps o).1 os
+
+/-- **C17 (string builder)**: for every operation sequence the builder behaves as the list of pieces appended since the last clear:
+    the size is the number of pieces and `bstr_builder_to_str` is their concatenation in order, across growth of the piece list. -/
+theorem C17_builder_sim (b : Builder) (w : Ring.WF b.pieces) (ops : List BOp) : runB b ops = runBSpec (Ring.abs b.pieces) ops := by
+  induction ops generalizing b with
+  | nil => rfl
+  | cons o os ih =>
+    unfold runB runBSpec
+    cases o with
+    | append d =>
+      simp only [stepB, stepBSpec]
+      rw [ih (Builder.append b d) (Ring.push_wf _ w _)]
+      simp [Builder.append, Ring.abs_push _ w]
+    | appendC d =>
+      simp only [stepB, stepBSpec]
+      rw [ih (Builder.appendC b d) (Ring.push_wf _ w _)]
+      simp [Builder.appendC, Builder.append, Ring.abs_push _ w]
+    | clear =>
+      simp only [stepB, stepBSpec]
+      have hc : Ring.abs (Builder.clear b).pieces = [] ∧ Ring.WF (Builder.clear b).pieces := by
+        unfold Builder.clear
+        split
+        · rename_i h
+          refine ⟨?_, w⟩
+          apply List.eq_nil_of_length_eq_zero
+          simpa [Builder.size, Ring.size] using h
+        · refine ⟨?_, Ring.clear_wf _ w⟩
+          apply List.eq_nil_of_length_eq_zero
+          simp [Ring.clear]
+      rw [ih (Builder.clear b) hc.2, hc.1]
+    | size =>
+      simp only [stepB, stepBSpec]
+      rw [ih b w]
+      simp [Builder.size, Ring.size]
+    | toStr =>
+      simp only [stepB, stepBSpec]
+      rw [ih b w, Builder.toStr_eq]
+
+theorem C17_builder_sim_fresh (ops : List BOp) : runB Builder.create ops = runBSpec [] ops := by
+  have h := C17_builder_sim Builder.create (Ring.create_wf 16 (by decide)) ops
+  have e : Ring.abs (Builder.create).pieces = [] := by
+    apply List.eq_nil_of_length_eq_zero; simp [Builder.create, Ring.create]
+  rw [e] at h; exact h
+
+example : runB Builder.create [.append (b!"ab"), .appendC [0x63, 0x00, 0x64], .size, .toStr, .clear, .size, .toStr]
+    = [.unit, .unit, .num 2, .str (b!"abc"), .unit, .num 0, .str []] := by decide
+end
 
 end Htp.C17
